@@ -358,3 +358,50 @@ func AllShapes(n int) []*Node {
 	}
 	return shapes(0, n)
 }
+
+// Clone deep-copies a tree.
+func (n *Node) Clone() *Node {
+	if n == nil {
+		return nil
+	}
+	if n.IsLeaf() {
+		return LeafN(n.Leaf)
+	}
+	return Bin(n.Op, n.L.Clone(), n.R.Clone())
+}
+
+// Equal is structural equality.
+func (n *Node) Equal(o *Node) bool {
+	if n.IsLeaf() || o.IsLeaf() {
+		return n.IsLeaf() && o.IsLeaf() && n.Leaf == o.Leaf
+	}
+	return n.Op == o.Op && n.L.Equal(o.L) && n.R.Equal(o.R)
+}
+
+// Size is the number of nodes.
+func (n *Node) Size() int {
+	if n.IsLeaf() {
+		return 1
+	}
+	return 1 + n.L.Size() + n.R.Size()
+}
+
+// Nth returns a pointer to the slot holding the i-th node in pre-order (so it can be replaced).
+func Nth(root **Node, i int) **Node {
+	cnt := 0
+	var walk func(p **Node) **Node
+	walk = func(p **Node) **Node {
+		if cnt == i {
+			return p
+		}
+		cnt++
+		if (*p).IsLeaf() {
+			return nil
+		}
+		if r := walk(&(*p).L); r != nil {
+			return r
+		}
+		return walk(&(*p).R)
+	}
+	return walk(root)
+}
